@@ -29,7 +29,7 @@ func init() {
 		ID:        "C17",
 		Level:     "exploration",
 		Technique: "exhaustive enumeration of all decorator nestings up to a depth bound, each executed on the real ErrorCode / live session and compared with an independent outermost-first reference walk",
-		Rule: "every sequence (innermost first) of length <= depth over 25 decorator letters {2 codes, 2 severities, 3 hints, 3 details (one each with % verbs), 2 constraint names, 5 source locations + 1 sharing file and line with another + 2 with an empty file / function, 4 default- or empty-valued decorations, fmt %w wrap} x 5 base texts (incl. the empty text and one with % verbs), plus the nil error; consecutive: every 1-letter error followed by every error of <= 2 letters, the second one checked; text-length: each of message / hint / detail / constraint / source file / source function at every length 1..130 and around 256, 1024, 4096; " +
+		Rule: "every sequence (innermost first) of length <= depth over 26 decorator letters {2 codes, 2 severities, 3 hints, 3 details (one each with % verbs), 2 constraint names, 5 source locations + 1 sharing file and line with another + 2 with an empty file / function + 1 whose three parts are all zero, 4 default- or empty-valued decorations, fmt %w wrap} x 5 base texts (incl. the empty text and one with % verbs), plus the nil error; consecutive: every 1-letter error followed by every error of <= 2 letters, the second one checked; text-length: each of message / hint / detail / constraint / source file / source function at every length 1..130 and around 256, 1024, 4096; " +
 			"a case is non-trivial when it carries at least one decoration; distinct = distinct (base, shape)",
 		Assumptions: []string{"decoration values are non-empty and NUL-free", "a ReadyForQuery after the ErrorResponse written by ErrorCode is tolerated, not required"},
 		Enumerate:   c17Enumerate,
